@@ -540,6 +540,28 @@ twin('c12-startpoint-none', 'C12', 'iOpt/solver_parametrs.py', 'SolverParameters
 twin('c12-parameters-none', 'C12', SV, 'Solver.__init__', 'parameters: SolverParameters = SolverParameters()',
      'parameters: SolverParameters = None', also=[(SV, 'Solver.__init__', '        self.problem = problem\n',
                                                   '        if parameters is None:\n            parameters = SolverParameters()\n        self.problem = problem\n')])
+_EV_NEW = ('self.evolvent = Evolvent(problem.lowerBoundOfFloatVariables, problem.upperBoundOfFloatVariables,\n'
+           '                                 problem.numberOfFloatVariables, parameters.evolventDensity)')
+fire('c12-evolvent-registry-classmethod', 'C12', SV, 'Solver.__init__', _EV_NEW,
+     'self.evolvent = Evolvent.GetInstance(problem.lowerBoundOfFloatVariables, problem.upperBoundOfFloatVariables,\n'
+     '                                             problem.numberOfFloatVariables, parameters.evolventDensity)', 'R12.3',
+     also=[(EV, 'Evolvent', '    def SetBounds(self,',
+            '    __instances = {}\n\n    @classmethod\n    def GetInstance(cls, lo, up, n=1, m=10):\n'
+            '        key = (n, m)\n        ev = cls.__instances.get(key)\n        if ev is None:\n'
+            '            ev = cls(lo, up, n, m)\n            cls.__instances[key] = ev\n        else:\n'
+            '            ev.SetBounds(lo, up)\n        return ev\n\n    def SetBounds(self,')],
+     why='one evolvent per (N, m) shared by all solvers, re-targeted on every request')
+fire('c12-evolvent-registry-setdefault', 'C12', SV, 'Solver.__init__', _EV_NEW,
+     'self.evolvent = _EVOLVENTS.setdefault(problem.numberOfFloatVariables, Evolvent(problem.lowerBoundOfFloatVariables, problem.upperBoundOfFloatVariables,\n'
+     '                                 problem.numberOfFloatVariables, parameters.evolventDensity))', None,
+     also=[(SV, None, '\nclass Solver:', '\n_EVOLVENTS = {}\n\n\nclass Solver:')])
+twin('c12-evolvent-factory-fresh', 'C12', SV, 'Solver.__init__', _EV_NEW,
+     'self.evolvent = Evolvent.ForProblem(problem, parameters.evolventDensity)',
+     also=[(EV, 'Evolvent', '    def SetBounds(self,',
+            '    @classmethod\n    def ForProblem(cls, problem, m=10):\n'
+            '        return cls(problem.lowerBoundOfFloatVariables, problem.upperBoundOfFloatVariables,\n'
+            '                   problem.numberOfFloatVariables, m)\n\n    def SetBounds(self,')],
+     why='a factory that builds a fresh evolvent per call shares nothing')
 
 # ----------------------------------------------------------------------------- C15
 PR = 'iOpt/problems/'
@@ -971,6 +993,19 @@ gtwin('g-insert-no-flag', SD, 'SearchData.InsertDataItem',
 gtwin('g-new-problem', PR + 'xsquared.py', None, 'class XSquared(Problem):',
       'class XCubedAbs(Problem):\n    def __init__(self, dimension: int):\n        super(XCubedAbs, self).__init__()\n        self.dimension = dimension\n        self.numberOfFloatVariables = dimension\n        self.numberOfObjectives = 1\n        self.numberOfConstraints = 0\n        self.floatVariableNames = np.ndarray(shape=(self.dimension), dtype=str)\n        for i in range(self.dimension):\n            self.floatVariableNames[i] = i\n        self.lowerBoundOfFloatVariables = np.ndarray(shape=(self.dimension), dtype=np.double)\n        self.lowerBoundOfFloatVariables.fill(-1)\n        self.upperBoundOfFloatVariables = np.ndarray(shape=(self.dimension), dtype=np.double)\n        self.upperBoundOfFloatVariables.fill(2)\n        self.knownOptimum = np.ndarray(shape=(1), dtype=Trial)\n        pointfv = np.ndarray(shape=(self.dimension), dtype=np.double)\n        pointfv.fill(0)\n        KOpoint = Point(pointfv, [])\n        KOfunV = np.ndarray(shape=(1), dtype=FunctionValue)\n        KOfunV[0] = FunctionValue()\n        KOfunV[0].value = 0\n        self.knownOptimum[0] = Trial(KOpoint, KOfunV)\n\n    def Calculate(self, point: Point, functionValue: FunctionValue) -> FunctionValue:\n        s = 0.0\n        for i in range(self.dimension):\n            s += abs(point.floatVariables[i]) ** 3\n        functionValue.value = s\n        return functionValue\n\n\nclass XSquared(Problem):')
 
+gtwin('g-evolvent-factory-fresh', SV, 'Solver.__init__', _EV_NEW,
+      'self.evolvent = Evolvent.ForProblem(problem, parameters.evolventDensity)',
+      also=[(EV, 'Evolvent', '    def SetBounds(self,',
+             '    @classmethod\n    def ForProblem(cls, problem, m=10):\n'
+             '        return cls(problem.lowerBoundOfFloatVariables, problem.upperBoundOfFloatVariables,\n'
+             '                   problem.numberOfFloatVariables, m)\n\n    def SetBounds(self,')],
+      why='a class-method factory that builds a fresh evolvent per call')
+gtwin('g-solve-own-counter', P, 'Process.Solve', '        startTime = datetime.now()\n',
+      '        startTime = datetime.now()\n        self.solveCalls = 1\n')
+gtwin('g-refine-options-local', P, 'Process.DoLocalRefinement',
+      "        nelder_mead = scipy.optimize.minimize(self.problemCalculate, x0=startPoint, method='Nelder-Mead',\n                                              options={'maxiter': self.localMethodIterationCount}, bounds=bounds)",
+      "        opts = {'maxiter': self.localMethodIterationCount}\n"
+      "        nelder_mead = scipy.optimize.minimize(self.problemCalculate, x0=startPoint, method='Nelder-Mead',\n                                              options=opts, bounds=bounds)")
 twin('c03-while-traversal', 'C03', SD, 'SearchData.RefillQueue',
      '        for itr in self:\n            self._RGlobalQueue.Insert(itr.globalR, itr)',
      '        itr = self.GetLastItem()\n        while itr is not None:\n            itr = itr.GetLeft()\n        for itr in self:\n            self._RGlobalQueue.Insert(itr.globalR, itr)',
